@@ -262,3 +262,34 @@ Qed.
 
 Check C04_phase1_canonical.
 Check C04_entry_points_agree.
+
+(** * The premise [accept_bounded] is what the validator of C05 guarantees: a content accepted
+      by any of the four validator entry points of Model/CommitmentPolicy.v (under the
+      non-permissive filter) has every HTLC expiry below MAX_CLTV_EXPIRY = 500 000 000 < 2^31
+      ([C05_accept_implies_bounds], conjunct [expiry_bound]). *)
+From VLS Require Model.CommitmentPolicy Props.C05.
+
+Definition policy_info (c : content) : CommitmentPolicy.cinfo :=
+  CommitmentPolicy.mkInfo true (c_to_holder c) (c_to_cp c)
+    (map (fun h => (h_value h, h_cltv h)) (c_offered c))
+    (map (fun h => (h_value h, h_cltv h)) (c_received c)) (c_feerate c).
+
+Theorem C04_validated_contents_bounded :
+  forall en prof warn pol e s cs (c : content),
+    (forall t, warn t = false) ->
+    CommitmentPolicy.max_feerate pol < U64.U32MAX ->
+    CommitmentPolicy.heights_fit prof pol cs ->
+    CommitmentPolicy.validate_entry en CommitmentPolicy.est_new prof warn pol e s cs (c_num c) (policy_info c)
+    = CommitmentPolicy.Ok ->
+    bounded c.
+Proof.
+  intros en prof warn pol e s cs c Hw Hm Hf H.
+  pose proof (C05.C05_accept_implies_bounds en prof warn pol e s cs (c_num c) (policy_info c) Hw Hm Hf H)
+    as [_ [_ [_ [_ [He _]]]]].
+  unfold CommitmentPolicy.expiry_bound, policy_info in He. cbn in He.
+  apply Forall_app in He. destruct He as [_ Hr]. unfold bounded.
+  rewrite Forall_map in Hr. eapply Forall_impl; [|exact Hr].
+  intros h [Hh _]. cbn in Hh. unfold CommitmentPolicy.MAX_CLTV_EXPIRY in Hh.
+  change (2 ^ 31) with 2147483648. Lia.lia.
+Qed.
+Print Assumptions C04_validated_contents_bounded.
